@@ -142,6 +142,9 @@ def draw_chain(draw):
         common = [c for c in cols_now if c in ocols and not sch.cols[c]["null"] and not sch.cols[c]["zn"] and sch.cols[c]["type"] != "bool"]
         if common:
             k = g.subset(common, lo=1, hi=2)
+            if g.boolean():
+                # the checked join sits directly on an order_rows without limit (a step the builder drops there)
+                steps.append({"op": "order_rows", "cols": [g.pick(cols_now)], "reverse": [], "limit": None})
             steps.append({"op": "natural_join", "other": other, "on": [[c, c] for c in k], "jointype": g.pick(["inner", "left"]), "check": g.pick([True, "by"])})
     return {"tables": case["tables"], "table": tname, "steps": steps, "expr_mode": "text"}
 
